@@ -20,6 +20,7 @@ import importlib
 import json
 import os
 import random
+import re
 import subprocess
 import sys
 import time
@@ -90,6 +91,11 @@ class Res:
     def violation(self, mechanism, detail, case, known=None):
         """mechanism: short stable string naming what went wrong (dedup key);
         known: id of the known-finding classifier that claims it, or None."""
+        if "harness" in mechanism and _MISFIT.search(json.dumps(jsonable(detail), default=str)):
+            # the instrumentation reaches for a private attribute the implementation no longer has: that says
+            # nothing about the property - inconclusive, never a violation
+            self.count("instrumentation_misfit")
+            return
         self.viol_total += 1
         k = f"{known or ''}:{mechanism}"
         n = self.per_mech.get(k, 0)
@@ -112,6 +118,9 @@ class Res:
             "reach": self.reach,
             "info": self.info,
         }
+
+
+_MISFIT = re.compile(r"AttributeError[^\n]{0,200}?(_[A-Za-z]+__[a-z_]+|'_tmap'|'_cmap'|'_rmap'|'_indexes')")
 
 
 def jsonable(o):
@@ -328,6 +337,8 @@ def run_check(pid, tier, seed, verbose=False, shards=None):
     if len(nontrivial) < 2:
         reasons.append(f"too-few-distinct-classes {len(nontrivial)}")
 
+    if counters.get("instrumentation_misfit"):
+        reasons.append(f"instrumentation-misfit: {counters['instrumentation_misfit']} harness calls failed on a private attribute the tree no longer has")
     # classify
     findings, _fixed = load_known()
     unknown = []
